@@ -241,7 +241,7 @@ def tlc(module, cfg, env=None, workers=None, timeout=1800, extra=(), simulate=No
         if java_opts:
             cmd += java_opts
         cmd += ["-cp", "/opt/veriftools/tla/tla2tools.jar:/opt/veriftools/tla/CommunityModules-deps.jar",
-                "tlc2.TLC", "-metadir", md, "-workers", str(workers or JOBS), "-config", cfg]
+                "tlc2.TLC", "-noGenerateSpecTE", "-metadir", md, "-workers", str(workers or JOBS), "-config", cfg]
         if not deadlock:
             cmd += ["-deadlock"]
         if simulate:
